@@ -15,3 +15,8 @@ open RV.C09
 #print axioms denotes_cases
 #print axioms duration_roundtrip
 #print axioms duration_printer_total
+#print axioms date_roundtrip
+#print axioms time_roundtrip_partial
+#print axioms datetime_roundtrip_partial
+#print axioms time_readback_wide
+#print axioms time_roundtrip_witness
